@@ -58,27 +58,27 @@ def run_top(drv, case):
 
 def run_seq(drv, case):
     m = drv.m
-    x = drv.term(('var', 4, '$V4'))
+    x = drv.term(('var', 6, '$V6'))
     an = drv.term(('anon',))
     t = U.inst(m, case['T'], 'T')
     tt = drv.term(t)
     ss0 = drv.ss0()
     s1 = drv.unify(x, an, ss0) if case['order'] == 0 else drv.unify(an, x, ss0)
-    desc = '%s then $V4 = %s' % ('$V4 = $_' if case['order'] == 0 else '$_ = $V4', U.text(case['T']))
+    desc = '%s then $V6 = %s' % ('$V6 = $_' if case['order'] == 0 else '$_ = $V6', U.text(case['T']))
     if s1.h is None: raise Violation('anon-fails:var', desc + ': first step fails')
     if drv.isbound(x, s1):
-        raise Violation('anon-binds:var', desc + ': $V4 is bound after being unified with $_')
+        raise Violation('anon-binds:var', desc + ': $V6 is bound after being unified with $_')
     s2 = drv.unify(x, tt, s1)
     ref = drv.unify(x, tt, ss0)
     if (s2.h is None) != (ref.h is None):
-        raise Violation('anon-changes-later:' + U.kind(case['T']), '%s: %s, but $V4 = T alone %s' % (desc, 'fails' if s2.h is None else 'succeeds', 'fails' if ref.h is None else 'succeeds'))
+        raise Violation('anon-changes-later:' + U.kind(case['T']), '%s: %s, but $V6 = T alone %s' % (desc, 'fails' if s2.h is None else 'succeeds', 'fails' if ref.h is None else 'succeeds'))
     if s2.h is not None:
         a, b = drv.dumpss(s2), drv.dumpss(ref)
         ra, rb = drv.resolve(x, s2), drv.resolve(x, ref)
         if not UC.struct_eq(m, ra, rb):
-            raise Violation('anon-changes-later:' + U.kind(case['T']), '%s: $V4 resolves to %s instead of %s' % (desc, R.show(ra), R.show(rb)))
+            raise Violation('anon-changes-later:' + U.kind(case['T']), '%s: $V6 resolves to %s instead of %s' % (desc, R.show(ra), R.show(rb)))
         if len(a) != len(b) or any(not UC.struct_eq(m, p, q) for p, q in zip(a, b)):
-            raise Violation('anon-changes-later:' + U.kind(case['T']), '%s: bindings differ from those of $V4 = T alone' % desc)
+            raise Violation('anon-changes-later:' + U.kind(case['T']), '%s: bindings differ from those of $V6 = T alone' % desc)
     return {'tags': ['sequence'], 'note': desc}
 
 
